@@ -74,8 +74,18 @@ func (c *vsock) ReadFrom(b []byte) (int, net.Addr, error) {
 			defer t.Stop()
 			timer = t.C
 		}
+		select { // a closed socket yields nothing more, whatever is queued (select would otherwise choose at random)
+		case <-c.closed:
+			return 0, nil, net.ErrClosed
+		default:
+		}
 		select {
 		case p := <-c.in:
+			select {
+			case <-c.closed:
+				return 0, nil, net.ErrClosed
+			default:
+			}
 			a, _ := net.ResolveUDPAddr("udp", p.src)
 
 			return copy(b, p.data), a, nil
